@@ -202,7 +202,7 @@ def build():
             J.append(Job("E2/_advance_parsing/md=%d/part=%02d" % (md, i), "E2", "contracts/h_adv.c", "h_adv", ADV_PROPS,
                          enforce="_advance_parsing", defs=["VC_MD=%d" % md],
                          cbmc_args=["--unwindset", "h_adv.0:%d" % (md + 1), "--unwinding-assertions", "--slice-formula"],
-                         timeout=tmo, mem_gb=7, tier=tier, part=(i, NPART),
+                         timeout=tmo, mem_gb=7, mem_gate=4.5 if md == 1 else 6, tier=tier, part=(i, NPART),
                          note="legacy --apply-loop-contracts; function contract asserted by harness; max_depth=%d constant, all else symbolic; obligations split in %d shares run in parallel" % (md, NPART)))
 
     # ---- E3 bounded stand-ins (labelled bounded everywhere; never counted as proof)
@@ -242,7 +242,8 @@ def build():
         uw = ["--unwind", str(unw), "--unwindset", "binson_parser_field_with_length.0:%d,ref_field.0:%d" % (n // 3 + 2, n // 3 + 2)]
         J.append(Job("E3/" + nm, "E3", "bounded/h_nav.c", "h_nav", pr, defs=defs,
                      cbmc_args=uw + ["--unwinding-assertions", "--no-standard-checks"],
-                     timeout=240 if doc else 3600, mem_gb=6 if doc else (22 if heavy else 16), tier=tier,
+                     timeout=240 if doc else 3600, mem_gb=6 if doc else (22 if heavy else 16),
+                     mem_gate=1 if doc else (16 if heavy else 11), tier=tier,
                      note="BOUNDED: all valid %s-rooted documents of exactly %d bytes x call sequence %s (E enter root, N next, O/A go_into_object/array, o/a leave_object/array, R get_raw, F/G/H field lookups); memory-safety checks are off in this tier (they are decided by E1/E2)" % ("array" if root else "object", n, seq)))
         if doc and pinned_regular:
             J[-1].props.update(NAV_MORE)          # pinned runs are cheap: they serve the decode / latching tags too
@@ -255,10 +256,10 @@ def build():
 
     LK = {"C07": "*"}
     RW = {"C11": "*"}
-    quick_nav = [("ENNo", 0, 7, None), ("ENONoN", 1, 6, None), ("ENANaNa", 1, 6, None)]
+    quick_nav = [("ENNo", 0, 7, None), ("ENANa", 1, 6, None)]
     for seq, root, n, pr in quick_nav:
         nav(seq, root, n, "quick", pr)
-    thorough_nav = [("ENONoo", 0, 7, None), ("ENo", 0, 7, None), ("EFN", 0, 7, LK), ("EFG", 0, 7, LK), ("EH", 0, 7, LK), ("ENRNo", 0, 7, RW),
+    thorough_nav = [("ENANaNa", 1, 6, None), ("ENONoN", 1, 6, None), ("ENONoo", 0, 7, None), ("ENo", 0, 7, None), ("EFN", 0, 7, LK), ("EFG", 0, 7, LK), ("EH", 0, 7, LK), ("ENRNo", 0, 7, RW),
                     ("ENNa", 1, 6, None), ("ENRN", 1, 6, RW), ("ENNa", 1, 7, None), ("ENANaNa", 1, 7, None), ("ENONoN", 1, 7, None),
                     ("ENNo", 0, 8, None), ("ENo", 0, 8, None)]
     for seq, root, n, pr in thorough_nav:
